@@ -98,8 +98,20 @@ TCompact == /\ IsEvent("Compact") /\ Quiescent
             /\ Expect(E.srcUnchanged, "compaction changed the source file")
             /\ UNCHANGED vars
 
+\* the command-line views of the closed database (`bbolt buckets`, `bbolt keys`, `bbolt get`) are projections of the
+\* committed state: top-level bucket names in key order, the keys of a (nested) bucket in key order, the value of a key
+TCLIView == /\ IsEvent("CLIView")
+            /\ Expect(E.bucketsOK /\ E.buckets = Keys(store), <<"bbolt buckets; specification says", Keys(store)>>)
+            /\ \A i \in 1..Len(E.keys) :
+                  LET q == E.keys[i] IN
+                  Expect(q.ok /\ ValidPath(store, q.path) /\ q.keys = Keys(At(store, q.path)), <<"bbolt keys; specification says", q.path, IF ValidPath(store, q.path) THEN Keys(At(store, q.path)) ELSE "no such bucket">>)
+            /\ \A i \in 1..Len(E.gets) :
+                  LET g == E.gets[i] IN
+                  Expect(g.ok /\ ValidPath(store, g.path) /\ IsV(At(store, g.path), g.k) /\ g.v = At(store, g.path).ents[g.k].v,
+                         <<"bbolt get; specification says", g.path, g.k, IF ValidPath(store, g.path) /\ IsV(At(store, g.path), g.k) THEN At(store, g.path).ents[g.k].v ELSE "no such key">>)
+            /\ UNCHANGED vars
 TNext == TReset \/ TBeginCall \/ TBegin \/ TLock \/ TUnlock \/ TMeta \/ TOp \/ TNewCur \/ TCur \/ TCurDel
-         \/ TForEach \/ TDump \/ TEnd \/ TReopen \/ TBackup \/ TCompact
+         \/ TForEach \/ TDump \/ TEnd \/ TReopen \/ TBackup \/ TCompact \/ TCLIView
 TSpec == TInit /\ [][TNext]_tvars
 
 \* acceptance: the whole trace was consumed (high-water mark of l; -workers 1)
